@@ -1014,6 +1014,11 @@ def bi_range(eng, st, pos, kw):
 
 
 def bi_str(eng, st, pos, kw):
+    h = eng.hooks.get("str")
+    if h and pos:
+        r = h(eng, st, pos[0])          # a contract module may give str(x) a meaning (e.g. str(<float>) = str_of_float(x))
+        if r is not None:
+            return r
     if pos and isinstance(pos[0], (VStr,)):
         return [("ok", st, pos[0])]
     if pos and isinstance(pos[0], VConc) and isinstance(pos[0].py, str):
@@ -1078,10 +1083,37 @@ def _minmax(is_min):
     return f
 
 
+# float(<string>) and str(<float>) as uninterpreted functions (nothing is known about them but what a contract assumes through
+# `axioms=`, e.g. float(str(x)) == x): float(s) raises ValueError unless float_parses(s), else it is the extended real
+# (float_of_str_k(s), float_of_str_v(s)); str(x) of a float is str_of_float(kind, value) (only through the `str` hook, see bi_str)
+FLOAT_PARSES = z3.Function("float_parses", Id, z3.BoolSort())
+FLOAT_OF_STR_K = z3.Function("float_of_str_k", Id, z3.IntSort())
+FLOAT_OF_STR_V = z3.Function("float_of_str_v", Id, z3.RealSort())
+STR_OF_FLOAT = z3.Function("str_of_float", z3.IntSort(), z3.RealSort(), Id)
+
+
+def float_of_str(t):
+    return VReal(FLOAT_OF_STR_K(t), FLOAT_OF_STR_V(t))
+
+
+def str_of_float(x):
+    """the string str(x) of an extended real (one string per value: the finite part of an infinity is normalised away)"""
+    return STR_OF_FLOAT(x.k, z3.If(x.k == 0, x.v, z3.RealVal(0)))
+
+
 def bi_float(eng, st, pos, kw):
     v = pos[0]
     if isinstance(v, VConc) and isinstance(v.py, str):
         return [("ok", st, xr_const(float(v.py)))]
+    if isinstance(v, VStr):
+        res = []
+        for ok, s in eng.branch(st, FLOAT_PARSES(v.t)):
+            if ok:
+                r = float_of_str(v.t)
+                res.append(("ok", s.assume(r.k >= -1, r.k <= 1), r))
+            else:
+                res.append(eng.raise_(s, "ValueError"))
+        return res
     return [("ok", st, eng.to_real(v))]
 
 
